@@ -23,6 +23,7 @@ def units(tier):
         E("vp_main_quat_from_matrix1", "branch vx.x largest"),
         E("vp_main_quat_from_matrix2", "branch vy.y largest"),
         E("vp_main_quat_from_matrix3", "branch vz.z largest"),
+        E("vp_main_quat_slerp_id", "slerp(t,a,identity) for all unit a with |a.r| <= 0.9995 and all t in [0,1]: unit result, end points, invariant under a -> -a (sin/cos/acos: functions with s^2+c^2=1 and cos(acos d)=d; general b gives no verdict in 20 s)"),
         E("vp_main_quat_ypr", "yaw/pitch/roll constructor = q_y q_x q_z, unit"),
         E("vp_main_affine", "affine xfmPoint/xfmVector/(A*B)(p)/translate/scale"),
         E("vp_main_affine_rcp", "rcp(A)*A = identity map; affine xfmNormal"),
@@ -36,7 +37,7 @@ def units(tier):
     us = [SmtUnit("linear_f", "harness/C06_linear.cpp", ents,
                   assumptions=["REAL mode: float operations are exact real operations (rounding error magnitude not decided)",
                                "rcp.ss/rsqrt.ss idealised as exact reciprocal (square root); their accuracy is C07's obligation",
-                               "sin/cos: only s^2+c^2=1 per argument (+ double-angle link where stated in the harness)",
+                               "sin/cos: only s^2+c^2=1 per argument (+ double-angle link where stated in the harness); acos(d): an angle in [0,pi] with cosine d (|d| <= 1 assumed)",
                                "preconditions as in the property: det != 0, unit axes/quaternions"])]
     if not q:
         us.append(SmtUnit("linear_fa", "harness/C06_linear.cpp", ents, defines=["VEC3=vec3fa"],
